@@ -42,6 +42,11 @@ func (sfc *StructFieldsCopy) Frag(ctx context.Context) iter.Seq[string] {
 		for i := 0; i < sfc.Struct.NumFields(); i++ {
 			f := sfc.Struct.Field(i)
 
+			// blank field could not be selected, `out._ = in._` does not compile
+			if f.Name() == "_" {
+				continue
+			}
+
 			if sfc.Skip != nil && sfc.Skip(f) {
 				continue
 			}
